@@ -711,8 +711,15 @@ func runC12(c *Ctx) {
 			mk(k, 'a', gvInt(1), gvUnsupported(1)),
 		)
 	}
-	for i := 0; i < 16; i++ {
+	for i := 0; i < len(unsupportedValues); i++ {
 		vals = append(vals, gvUnsupported(i))
+	}
+	// typed nil slices and maps of every flavour: they are supported values and become empty containers
+	for _, k := range []byte("(<") {
+		for _, fl := range []byte("aolsbif") {
+			vals = append(vals, &GV{K: k, Fl: fl, NilC: true})
+		}
+		vals = append(vals, &GV{K: k, Fl: 'a', Xs: []*GV{{K: '(', Fl: 's', NilC: true}, {K: '<', Fl: 'a', NilC: true}}, Keys: []string{"x", "y"}})
 	}
 	nontrivial := func(g *GV) bool { return !(g.K == 'n' || g.K == 'b' || g.K == 'i' || g.K == 'd' || g.K == 's') }
 	for _, g := range vals {
@@ -893,6 +900,11 @@ func runC14(c *Ctx) {
 		nestedO := m.NewObject(gvStr("a"), gvInt(1))
 		nested2 := m.NewList()
 		nestedO2 := m.NewObject()
+		if r.Chance(40) {
+			// user types that embed a List / an Object are elements of kind list / object like any other
+			nested2 = m.Derive(nested2)
+			nestedO2 = m.Derive(nestedO2)
+		}
 		for _, k := range []byte("nbidsLO") {
 			n := r.Intn(5)
 			if r.Chance(20) {
@@ -1051,6 +1063,9 @@ func runC17(c *Ctx) {
 		m.Case("reverse-mixed")
 		p := &Prog{c: c}
 		n := r.Intn(12)
+		if i%3 == 0 {
+			n = i/3%45 + r.Intn(3) // every length up to the forties, beyond any small-input fast path
+		}
 		gs := make([]*GV, n)
 		inner := m.NewList(gvInt(1))
 		p.lists = []string{inner}
